@@ -44,6 +44,9 @@ class ThreadDriver(MapDriver):
         self.dropped = False
 
 
+ANY = '*any*'       # result wildcard (the operation's own result is not observed)
+
+
 def seq_apply(state: Dict[int, int], op: Tuple) -> Tuple[Dict[int, int], Any]:
     """reference semantics on {key: value id}; returns (new state, result)"""
     kind, k = op[0], (op[1] if len(op) > 1 else None)
@@ -77,6 +80,10 @@ def seq_apply(state: Dict[int, int], op: Tuple) -> Tuple[Dict[int, int], Any]:
         return s, len(s)
     if kind == 'clear':
         return {}, None
+    if kind == 'remove_if':         # one step of retain: remove k only while it still holds the value the predicate inspected
+        if s.get(k) == op[2]:
+            del s[k]
+        return s, ANY
     raise ValueError(kind)
 
 
@@ -98,7 +105,7 @@ def linearizable(init: Dict[int, int], hist: List[Dict[str, Any]], final: Dict[i
         s = dict(init)
         for h in perm:
             s, r = seq_apply(s, hist[h]['op'])
-            if r != hist[h]['result']:
+            if r is not ANY and r != hist[h]['result']:
                 ok = False
                 break
         if ok and s == final:
@@ -198,6 +205,7 @@ class ConcRunner:
                 d0 = MapDriver(it0, sc.capacity, 'guard')
                 init = {}
             kept: set = set()
+            retain_seen: List[Any] = []
             for ti, script in enumerate(sc.threads):
                 itx = Interp(self.prog, ctx, env)
                 itx.ledger = L
@@ -252,6 +260,18 @@ class ConcRunner:
                                     kept.add(nv.id)
                             else:
                                 rec['result'] = (seen[0], nv.id if nv else None)
+                        elif kind == 'retain_none':
+                            # retain with a predicate that rejects everything and records what it was shown.  It is not one atomic
+                            # operation; its oracle is evaluated after the run (see `retain_seen` below)
+                            seen_r = []
+
+                            def fr(itq, kp, vp, seen_r=seen_r):
+                                seen_r.append((itq.load_ptr(kp).val, itq.load_ptr(vp).id))
+                                return Sc(False, 'bool')
+                            dt.retain(fr, force=False)
+                            retain_seen.extend(seen_r)
+                            rec['retain_seen'] = list(seen_r)
+                            rec['res_step'] = sched.step
                         elif kind == 'retain_force_none':
                             # retain_force with a predicate that rejects everything: for the final contents it acts like clear()
                             rec['op'] = ('clear',)
@@ -296,10 +316,30 @@ class ConcRunner:
                 final[kt.val] = vt.id
                 orc.entries.append(Entry(kt, vt))
             ops = [h for h in hist if h['op'] is not None]
-            order = linearizable(init, ops, final)
+            # retain (not retain_force): an entry whose value was replaced after the predicate inspected it must stay.  If the
+            # predicate was shown (k, v), a concurrent insert then replaced exactly v (it returned v), nobody else removed k, and k
+            # is gone at the end, retain removed an entry it had not inspected in that state
+            for (rk, rv) in retain_seen:
+                if rk in final:
+                    continue
+                replaced = [h for h in ops if h['op'][0] == 'insert' and h['op'][1] == rk and h['result'] == rv]
+                other_removals = [h for h in ops if h['op'][0] in ('remove', 'clear', 'compute_none') and (len(h['op']) < 2 or h['op'][1] == rk)]
+                if replaced and not other_removals:
+                    raise Violation('mismatch', 'retain removed key %s although its value (#%s, the one the predicate inspected) had been replaced by a concurrent insert before the removal (the insert returned #%s as previous value); the new value is lost' % (rk, rv, rv))
+            # retain is not one atomic operation: per inspected entry it is a conditional removal `remove_if(k, inspected value)`
+            # somewhere inside retain's interval.  Entries nobody else touches are applied up front (order-independent)
+            lin_init = dict(init)
+            for h in hist:
+                for (rk, rv) in h.get('retain_seen', []):
+                    touched = any(o['op'][0] == 'clear' or (len(o['op']) > 1 and o['op'][1] == rk) for o in ops)
+                    if touched:
+                        ops.append({'thread': h['thread'], 'op': ('remove_if', rk, rv), 'result': ANY, 'inv_step': h['inv_step'], 'res_step': h['res_step']})
+                    elif lin_init.get(rk) == rv:
+                        del lin_init[rk]
+            order = linearizable(lin_init, ops, final)
             if order is None:
                 raise Violation('not-linearizable', 'no sequential order explains the history %s with initial %s and final contents %s' % (
-                    [(h['thread'] + 1, h['op'], h['result'], h['inv_step'], h['res_step']) for h in ops], init, final))
+                    [(h['thread'] + 1, h['op'], h['result'], h['inv_step'], h['res_step']) for h in ops], lin_init, final))
             q = Quiescence(d0, orc, lambda k: hfn(it0, k))
             try:
                 q.check()
